@@ -123,6 +123,9 @@ def correspondence(ctx):
 
 
 SWEEP_BOUNDS = [3, 6, 10, 7, 5, 18325, (1 << 20) + 1, 62, 88, 10129, 1000, 3 * (1 << 18)]
+# powers of two take the mask path; swept as well (every raw word, in one process, draw after draw: a draw that
+# keeps bits or state from an earlier draw shows up as unequal counts)
+POW2_BOUNDS = [8, 2, 64, 1, 1 << 16, 32]
 
 
 def sweep(n, procs=16):
@@ -246,8 +249,8 @@ def check_large(ctx, n):
 
 
 def oracle(ctx, deep):
-    ctx.searched = ("full 2^32 raw-word sweep of the real bounded draw for bounds %s; for bounds above 2^31 (%s) a boundary-heavy probe for two raw "
-                    "words selecting one alternative followed by a full count of that alternative; structural checks on every correspondence case" % (SWEEP_BOUNDS, LARGE_BOUNDS))
+    ctx.searched = ("full 2^32 raw-word sweep of the real bounded draw for bounds %s and the powers of two %s; for bounds above 2^31 (%s) a boundary-heavy probe for two raw "
+                    "words selecting one alternative followed by a full count of that alternative; structural checks on every correspondence case" % (SWEEP_BOUNDS, POW2_BOUNDS, LARGE_BOUNDS))
     # cheap structural checks on every run: range; a rejected word is followed by a fresh decision
     for meta, a, b in getattr(ctx, "draw_results", []):
         if a is None or not a.startswith("ok "):
@@ -257,9 +260,9 @@ def oracle(ctx, deep):
             ctx.violations.append({"finding_key": "C01-range", "what": "draw returned an index >= n", "n": meta["n"],
                                    "words": meta.get("words"), "index": idx})
     if deep:
-        todo = SWEEP_BOUNDS if ctx.tier == "thorough" or ctx.mismatches else SWEEP_BOUNDS[:7]
+        todo = (SWEEP_BOUNDS + POW2_BOUNDS) if ctx.tier == "thorough" or ctx.mismatches else POW2_BOUNDS[:2] + SWEEP_BOUNDS[:7]
     else:
-        todo = [SWEEP_BOUNDS[ctx.seed % 3]]
+        todo = [SWEEP_BOUNDS[ctx.seed % 3], POW2_BOUNDS[ctx.seed % 3]]
     for n in todo:
         check_sweep(ctx, n)
         if ctx.violations and not ctx.tier == "thorough":
